@@ -28,7 +28,6 @@ class BlobExchangeClientProtocol(asyncio.Protocol):
         self.blob: typing.Optional['AbstractBlob'] = None
 
         self._blob_bytes_received = 0
-        self._length_from_peer = False
         self._response_fut: typing.Optional[asyncio.Future] = None
         self.buf = b''
 
@@ -68,7 +67,7 @@ class BlobExchangeClientProtocol(asyncio.Protocol):
             if blob_response and not blob_response.error and blob_response.blob_hash == self.blob.blob_hash:
                 # set the expected length for the incoming blob if we didn't know it
                 if self.blob.get_length() is None:
-                    self._length_from_peer = True
+                    self.blob.length_claimed_by_peer = True  # forgotten again by the blob if no download succeeds
                 self.blob.set_length(blob_response.length)
             elif blob_response and not blob_response.error and self.blob.blob_hash != blob_response.blob_hash:
                 # the server started sending a blob we didn't request
@@ -176,11 +175,6 @@ class BlobExchangeClientProtocol(asyncio.Protocol):
             self._response_fut.cancel()
         if self.writer and not self.writer.closed():
             self.writer.close_handle()
-        if self._length_from_peer and self.blob and not self.blob.get_is_verified() and \
-                all(writer is self.writer or writer.closed() for writer in self.blob.writers.values()):
-            # the length was only this peer's claim and the download failed: do not let it stick to the blob
-            self.blob.length = None
-        self._length_from_peer = False
         self._response_fut = None
         self.writer = None
         self.blob = None
@@ -196,7 +190,6 @@ class BlobExchangeClientProtocol(asyncio.Protocol):
             return 0, self
         try:
             self._blob_bytes_received = 0
-            self._length_from_peer = False
             self.blob, self.writer = blob, blob.get_blob_writer(self.peer_address, self.peer_port)
             self._response_fut = asyncio.Future()
             return await self._download_blob()
